@@ -78,7 +78,12 @@ func mutate(t *rapid.T, b []byte, maxLen int) []byte {
 
 func TestC05Core(t *testing.T) {
 	rec := hx.NewRecorder(t)
-	rapid.Check(t, func(rt *rapid.T) {
+	rapid.Check(t, propC05CoreWith(rec))
+}
+
+// propC05CoreWith is the property; rec may be nil (fuzzing).
+func propC05CoreWith(rec *hx.Recorder) func(*rapid.T) {
+	return func(rt *rapid.T) {
 		cfg := drawHostileCfg(rt)
 		cfg.MaxData = rapid.SampledFrom([]int{1400, 1476, 1500, 1501, 3000, 9000, 60000}).Draw(rt, "maxData")
 		nops := rapid.IntRange(1, 80).Draw(rt, "nops")
@@ -129,12 +134,19 @@ func TestC05Core(t *testing.T) {
 		if rec.WantSample() {
 			rec.Sample(map[string]any{"cfg": cfg, "nops": nops, "hostile_inputs": total, "passed_conv_check": passed})
 		}
-	})
+	}
 }
+
+var propC05Core = propC05CoreWith(nil)
 
 func TestC05FECDecoder(t *testing.T) {
 	rec := hx.NewRecorder(t)
-	rapid.Check(t, func(rt *rapid.T) {
+	rapid.Check(t, propC05FECDecoderWith(rec))
+}
+
+// propC05FECDecoderWith is the property; rec may be nil (fuzzing).
+func propC05FECDecoderWith(rec *hx.Recorder) func(*rapid.T) {
+	return func(rt *rapid.T) {
 		d, p := drawRatio(rt, "r.", false)
 		dec := kcp.VerifNewFECDecoder(d, p)
 		n := d + p
@@ -182,8 +194,10 @@ func TestC05FECDecoder(t *testing.T) {
 		if rec.WantSample() {
 			rec.Sample(map[string]any{"ratio": []int{d, p}, "packets": steps, "recognised_as_fec": recognised})
 		}
-	})
+	}
 }
+
+var propC05FECDecoder = propC05FECDecoderWith(nil)
 
 // sessionLimits checks C04's occupancy limits and the FEC decoder's on a session.
 func sessionLimits(s *kcp.UDPSession) error {
